@@ -201,6 +201,35 @@ def canon(t):
     return t
 
 
+def _c_binop(op, a, b):
+    import operator
+    if op == '/':
+        return _c_trunc_div(a, b)
+    if op == '%':
+        return a - _c_trunc_div(a, b) * b
+    return {'+': operator.add, '-': operator.sub, '*': operator.mul, '<<': operator.lshift, '>>': operator.rshift, '&': operator.and_, '|': operator.or_, '^': operator.xor}[op](a, b)
+
+
+def _o1_grid(fn, modenv, op):
+    """[] if the operator agrees with C on the grid, the list of disagreements otherwise, None if some point does not fold to a constant"""
+    bad = []
+    for a in (-7, -6, -1, 0, 1, 6, 7):
+        for b in (-3, -2, -1, 1, 2, 3):
+            if op in ('<<', '>>') and (b < 0 or a < 0):
+                continue
+            vals = {'left': a, 'right': b}
+            ev = sp.Evaluator({'isinstance': h_isinstance, 'self._parse_constant': lambda x, k, e, f: vals[x[0]['tag']],
+                               'self._c_div': lambda x, k, e, f: _c_trunc_div(x[0], x[1]) if all(isinstance(v, int) for v in x) and x[1] != 0 else Opq('cdiv(?)')})
+            env = dict(modenv)
+            env['exprnode'] = {'__class__': 'BinaryOp', 'op': op, 'left': {'__class__': 'Leaf', 'tag': 'left'}, 'right': {'__class__': 'Leaf', 'tag': 'right'}, 'coord': {'line': 1}}
+            ps = [p_ for p_ in ev.run(fn, env) if p_.outcome]
+            if len(ps) != 1 or ps[0].outcome[0] != 'return' or not isinstance(ps[0].outcome[1], int) or isinstance(ps[0].outcome[1], bool):
+                return None
+            if ps[0].outcome[1] != _c_binop(op, a, b):
+                bad.append((a, op, b, ps[0].outcome[1], _c_binop(op, a, b)))
+    return bad
+
+
 def o1(run, m, modenv):
     fn = m.find('Parser._parse_constant')
     F = 'Parser._parse_constant'
@@ -234,7 +263,13 @@ def o1(run, m, modenv):
                 ok = False
                 plain = isinstance(got, Term) and got.op in sp._OPNAME.values() and set(map(repr, got.args)) <= {'left', 'right'}
                 if not plain and not (isinstance(got, Term) and got.op == 'cdiv'):
-                    raise AnalysisError('%s: operator %r evaluates to %r, which this analysis cannot compare with %r' % (F, op, got, expect))
+                    # a form the symbolic comparison cannot read: decide it on a grid of small operands instead (everything folds to constants)
+                    verdict = _o1_grid(fn, modenv, op)
+                    if verdict is None:
+                        raise AnalysisError('%s: operator %r evaluates to %r, which this analysis cannot compare with %r' % (F, op, got, expect))
+                    ok = not verdict
+                    detail = '; '.join('%d %s %d gives %r, C gives %d' % x for x in verdict[:4])
+                    continue
                 detail = 'evaluates to %r, C semantics need %r' % (got, expect)
         for p in raises:
             # a rejection is only acceptable on a condition over the operands (negative shift count)
@@ -267,7 +302,47 @@ def o1(run, m, modenv):
     return n + 1
 
 
+def _c_trunc_div(a, b):
+    q = abs(a) // abs(b)
+    return -q if (a < 0) != (b < 0) else q
+
+
+def o2_grid(run, m):
+    """_c_div walked on one small operand pair per class (sign of a, sign of b, exact or not; |a| <, =, > |b|): every statement folds to a
+    constant in the walker, so the outcome is decided whatever form the function takes; returns False if some form does not fold"""
+    fn = m.find('Parser._c_div')
+    F = 'Parser._c_div'
+    grid = [(a, b) for a in (-7, -6, -2, -1, 0, 1, 2, 6, 7) for b in (-7, -3, -2, -1, 1, 2, 3, 7)]
+    bad, undec = [], 0
+    for a, b in grid:
+        ps = sp.Evaluator().run(fn, {'a': a, 'b': b})
+        o = ps[0].outcome if len(ps) == 1 else None
+        if not (o and o[0] == 'return' and isinstance(o[1], int) and not isinstance(o[1], bool)):
+            undec += 1
+            continue
+        if o[1] != _c_trunc_div(a, b):
+            bad.append((a, b, o[1], _c_trunc_div(a, b)))
+    if undec:
+        return False
+    run.ob('O2/division-truncates-toward-zero', F, 'grid of %d small operand pairs (all sign and exactness classes)' % len(grid), not bad, m.where(fn),
+           '; '.join('%d / %d gives %d, C gives %d' % x for x in bad[:4]))
+    return True
+
+
 def o2(run, m, modenv):
+    fn = m.find('Parser._c_div')
+    F = 'Parser._c_div'
+    if o2_grid(run, m):
+        # the symbolic classes below are an additional view; if the function's form is outside what they interpret, the grid has decided
+        try:
+            return _o2_symbolic(run, m, modenv)
+        except AnalysisError:
+            run.saw('O2 symbolic classes', ['not interpretable for the present form of _c_div; decided on the grid'])
+            return 1
+    return _o2_symbolic(run, m, modenv)
+
+
+def _o2_symbolic(run, m, modenv):
     fn = m.find('Parser._c_div')
     F = 'Parser._c_div'
     ev = sp.Evaluator()
